@@ -229,3 +229,42 @@ def message(r, known_types=()):
             r.shuffle(lst)
     wire = D.encode(r.getrandbits(16), fl, qs, *secs)
     return wire, feats
+
+
+def boundary_matrix():
+    """Fixed list of (label, wire, wrapper): one header / record field at a time set to its boundary values, everything else
+    a plain query-response (example.com A IN with one A answer)."""
+    qn = D.enc_name([b"example", b"com"])
+
+    def msg(id=0x1234, z=0, qr=1, opcode=0, aa=0, tc=0, rd=1, ra=1, rcode=0, questions=None, answers=None, auth=(), add=()):
+        qs = [(qn, 1, 1)] if questions is None else questions
+        an = [(D.enc_name([], pointer=12) if qs else qn, 1, 1, 60, b"\x5d\xb8\xd8\x22")] if answers is None else answers
+        return D.encode(id, D.flags_word(qr=qr, opcode=opcode, aa=aa, tc=tc, rd=rd, ra=ra, z=z, rcode=rcode), qs, an, list(auth), list(add))
+
+    out = []
+    for v in (0, 1, 0x7FFF, 0x8000, 0xFFFF):
+        for wk in ("udp", "tcp", "http", "dnsmsg"):
+            out.append((f"id={v}", msg(id=v), wk))
+    for flag in ("qr", "aa", "tc", "rd", "ra"):
+        for v in (0, 1):
+            out.append((f"{flag}={v}", msg(**{flag: v}), "udp"))
+    for v in (1, 2, 4, 7):
+        out.append((f"z={v}", msg(z=v), "udp"))
+    for v in range(16):
+        out.append((f"opcode={v}", msg(opcode=v), "udp"))
+        out.append((f"rcode={v}", msg(rcode=v), "udp"))
+    out.append(("counts=0", msg(questions=[], answers=[]), "udp"))
+    out.append(("counts=0/tcp", msg(questions=[], answers=[]), "tcp"))
+    out.append(("no-question", msg(questions=[], answers=[(qn, 1, 1, 60, b"\x01\x02\x03\x04")]), "udp"))
+    out.append(("question-only", msg(qr=0, ra=0, answers=[]), "udp"))
+    out.append(("root-question", msg(questions=[(b"\x00", 2, 1)], answers=[]), "udp"))
+    for v in (0, 1, 2**31 - 1, 2**31, 2**32 - 1):
+        out.append((f"ttl={v}", msg(answers=[(qn, 1, 1, v, b"\x01\x02\x03\x04")]), "udp"))
+    for v in (0, 65535, 255):
+        out.append((f"qtype={v}", msg(questions=[(qn, v, 1)], answers=[]), "udp"))
+        out.append((f"qclass={v}", msg(questions=[(qn, 1, v)], answers=[]), "udp"))
+        out.append((f"rrtype={v}", msg(answers=[(qn, v, 1, 60, b"\x01\x02")]), "udp"))
+        out.append((f"rrclass={v}", msg(answers=[(qn, 1, v, 60, b"\x01\x02\x03\x04")]), "udp"))
+    out.append(("all-sections", msg(auth=[(qn, 2, 1, 0, D.enc_name([b"ns"], pointer=12))], add=[(b"\x00", 41, 1232, 0, b"")]), "udp"))
+    out.append(("rdlength=0", msg(answers=[(qn, 1, 1, 60, b"")]), "udp"))
+    return out
